@@ -216,6 +216,8 @@ func (d *Pegnetd) NullifyMintedTokens(ctx context.Context, tx *sql.Tx, height ui
 		fLog.WithFields(log.Fields{
 			"err": err,
 		}).Info("zeroing burn | balances retrieval failed")
+		// Without the balances nothing would be burned: fail the block, it will be retried
+		return err
 	}
 
 	for _, tokenSupply := range MintTotalSupplyMap {
